@@ -280,6 +280,51 @@ Proof.
   - apply in_ms_grp in Hin. destruct Hin as (q & Hq & ->). exact (IHb _ _ _ _ Hq He).
 Qed.
 
+(* an upper bound on what a path can consume (None: unbounded) *)
+Fixpoint maxw (r : re) : option nat :=
+  match r with
+  | Chr _ => Some 1
+  | Seq a b => match maxw a, maxw b with Some x, Some y => Some (x + y) | _, _ => None end
+  | Alt a b => match maxw a, maxw b with Some x, Some y => Some (Nat.max x y) | _, _ => None end
+  | Rep mn (Some x) b => match maxw b with Some y => Some (Nat.max x mn * y) | None => None end
+  | Rep _ None _ => None
+  | Grp _ b => maxw b
+  | _ => Some 0
+  end.
+
+Theorem ms_maxw : forall r s g p mid k, In p (ms r s g) -> ext s mid (fst p) -> maxw r = Some k -> length mid <= k.
+Proof.
+  assert (U : forall s m1 m2 s', ext s m1 s' -> ext s m2 s' -> m1 = m2).
+  { intros s m1 m2 s' (_ & R1 & _) (_ & R2 & _). rewrite R1 in R2. exact (app_inv_tail _ _ _ R2). }
+  assert (Z0 : forall (s : st) (g : caps) (p : res) mid, p = (s, g) -> ext s mid (fst p) -> length mid = 0).
+  { intros s g p mid -> E. rewrite (U _ _ _ _ E (ext_nil s)). reflexivity. }
+  induction r as [|cs|a IHa b IHb|a IHa b IHb|mn mx b IHb|i b IHb|b IHb|w b IHb|ws| |]; intros s g p mid k Hin He Hk; cbn [maxw] in Hk.
+  - destruct Hin as [<-|[]]. rewrite (Z0 _ _ _ _ eq_refl He). lia.
+  - injection Hk as <-. destruct (ext_chr _ _ _ _ Hin) as (c & _ & E & _). rewrite (U _ _ _ _ He E). cbn. lia.
+  - destruct (maxw a) as [x|]; [|discriminate]. destruct (maxw b) as [y|]; [|discriminate]. injection Hk as <-.
+    apply in_ms_seq in Hin. destruct Hin as (q & Hq & Hp).
+    destruct (ms_extends _ _ _ _ Hq) as (m1 & E1). destruct (ms_extends _ _ _ _ Hp) as (m2 & E2).
+    rewrite (U _ _ _ _ He (ext_trans _ _ _ _ _ E1 E2)), app_length. pose proof (IHa _ _ _ _ _ Hq E1 eq_refl). pose proof (IHb _ _ _ _ _ Hp E2 eq_refl). lia.
+  - destruct (maxw a) as [x|]; [|discriminate]. destruct (maxw b) as [y|]; [|discriminate]. injection Hk as <-.
+    apply in_ms_alt in Hin. destruct Hin as [H|H]; [pose proof (IHa _ _ _ _ _ H He eq_refl) | pose proof (IHb _ _ _ _ _ H He eq_refl)]; lia.
+  - destruct mx as [x|]; [|discriminate]. destruct (maxw b) as [y|]; [|discriminate]. injection Hk as <-.
+    apply in_ms_rep in Hin. destruct Hin as (n & Hc & [_ Hn]).
+    enough (K : length mid <= n * y) by nia.
+    clear Hn. revert mid He. induction Hc as [s g|n s g q p Hq Hc IH]; intros mid He; [rewrite (Z0 _ _ _ _ eq_refl He); lia|].
+    destruct (ms_extends _ _ _ _ Hq) as (m1 & E1).
+    assert (E2 : exists m2, ext (fst q) m2 (fst p)).
+    { clear -Hc. induction Hc as [s g|n s g q' p Hq' Hc IH]; [exists []; apply ext_nil|]. destruct (ms_extends _ _ _ _ Hq') as (m1 & E1). destruct IH as (m2 & E2).
+      exists (m1 ++ m2). exact (ext_trans _ _ _ _ _ E1 E2). }
+    destruct E2 as (m2 & E2). rewrite (U _ _ _ _ He (ext_trans _ _ _ _ _ E1 E2)), app_length.
+    pose proof (IHb _ _ _ _ _ Hq E1 eq_refl). pose proof (IH m2 E2). cbn. lia.
+  - apply in_ms_grp in Hin. destruct Hin as (q & Hq & ->). exact (IHb _ _ _ _ _ Hq He Hk).
+  - injection Hk as <-. cbn [ms] in Hin. destruct (ms b s g); [destruct Hin|]. destruct Hin as [<-|[]]. rewrite (Z0 _ _ _ _ eq_refl He). lia.
+  - injection Hk as <-. cbn [ms] in Hin. destruct (back w s); [|destruct Hin]. destruct (ms b s0 g); [destruct Hin|]. destruct Hin as [<-|[]]. rewrite (Z0 _ _ _ _ eq_refl He). lia.
+  - injection Hk as <-. cbn [ms] in Hin. destruct (at_bnd ws s); [|destruct Hin]. destruct Hin as [<-|[]]. rewrite (Z0 _ _ _ _ eq_refl He). lia.
+  - injection Hk as <-. cbn [ms] in Hin. destruct (at_eos s); [|destruct Hin]. destruct Hin as [<-|[]]. rewrite (Z0 _ _ _ _ eq_refl He). lia.
+  - injection Hk as <-. cbn [ms] in Hin. destruct (idx s); [|destruct Hin]. destruct Hin as [<-|[]]. rewrite (Z0 _ _ _ _ eq_refl He). lia.
+Qed.
+
 (* ---- whatever is captured in group j was consumed by a path through (one of) the bodies of group j ---- *)
 Fixpoint gbodies (r : re) (j : nat) : list re :=
   match r with
@@ -347,6 +392,9 @@ Qed.
 
 (* for a match object: if group j is set its content was consumed by one of group j's bodies -- hence
    (ms_chars, ms_minw) its characters and its minimal length can be read off the pattern *)
+Lemma consumed_maxw body mid k : consumed_by body mid -> maxw body = Some k -> length mid <= k.
+Proof. intros (s1 & g1 & q & Hq & E) Hk. exact (ms_maxw _ _ _ _ _ _ Hq E Hk). Qed.
+
 Lemma consumed_facts body mid : consumed_by body mid -> Forall (inS (csets body)) mid /\ minw body <= length mid.
 Proof.
   intros (s1 & g1 & q & Hq & E). split; [|exact (ms_minw _ _ _ _ _ Hq E)].
